@@ -27,8 +27,10 @@ def possOf (fid : Nat) (g : GFile) : List Pos := posAll C fid ByteArray.empty (p
 abbrev GDir := List (Nat × GFile)
 
 /-- the directory's data files are exactly the ghost files, byte for byte -/
-def Matches (data : List (Nat × FileSt)) (g : GDir) : Prop :=
-  List.Forall₂ (fun (x : Nat × FileSt) (y : Nat × GFile) => x.1 = y.1 ∧ x.2.bytes = bytesOf y.2) data g
+def Matches : List (Nat × FileSt) → GDir → Prop
+  | [], [] => True
+  | x :: data, y :: g => x.1 = y.1 ∧ x.2.bytes = bytesOf y.2 ∧ Matches data g
+  | _, _ => False
 
 /-- the whole log in replay order (ascending file id, append order inside a file), each record with
     the position the writer reported for it -/
